@@ -1,4 +1,5 @@
 import CJ.Lemmas.Phantom
+import CJ.Lemmas.PhantomCompat
 import CJ.Model.DeriveGen
 /-!
 Helper lemmas for the derivation model (C01): ports, keys, and the station/client agreement of the
@@ -233,5 +234,148 @@ theorem stationSelect_eq_client {h : Hk} {cfg : Cfg} {gc : GenCfg} (seed : Bytes
   rw [hg]
   simp only [subnetsByVersion, if_neg h2, if_neg h1, Prog.bind_eq, Prog.bind]
   cases getSubnetsHkdf (h.hk seed labelSubnet) h.lim gc <;> rfl
+
+theorem ident_agree (c : Crypto) (t : Transport) (secret : Bytes) (keys : Keys) (ht : t ≠ .dtls) :
+    stationIdentifier c t secret keys = clientIdentifier c t secret keys := by
+  cases t <;> first | rfl | exact absurd rfl ht
+
+theorem stationIdentifier_dtls (c : Crypto) (secret : Bytes) (keys : Keys) :
+    stationIdentifier c .dtls secret keys = .ok (c.hmac secret hmacDtls) := rfl
+
+/-- the last stage of both derivations: same address bytes, ports that agree, identifiers that agree -/
+theorem finish_agree {seed : Bytes} {aC aS : Outcome Addr} {pc ps : Bool → POut Nat} {ic is_ : Outcome Bytes}
+    {dtls : Bool} {rv : Rendezvous}
+    (ha : ∀ a, aC = .ok a → ∃ a', aS = .ok a' ∧ a'.bytes = a.bytes ∧ ∀ q, pc a.randPort = .ok q → ps a'.randPort = .ok q)
+    (hi : dtls = false → is_ = ic) (hi' : dtls = true → ∃ b, is_ = .ok b)
+    (h : finish seed aC pc ic = .ok rv) :
+    ∃ rs, finish seed aS ps is_ = .ok rs ∧ rs.seed = rv.seed ∧ rs.addr = rv.addr ∧ rs.port = rv.port ∧
+      (dtls = false → rs.ident = rv.ident) := by
+  unfold finish at h ⊢
+  cases aC with
+  | err e => cases h
+  | panic w => cases h
+  | ok a =>
+    obtain ⟨a', ha', hb, hp⟩ := ha a rfl
+    subst ha'
+    simp only at h ⊢
+    cases hpc : pc a.randPort with
+    | err e => rw [hpc] at h; cases h
+    | panic w => rw [hpc] at h; cases h
+    | ok q =>
+      rw [hpc] at h
+      rw [hp _ hpc]
+      simp only at h ⊢
+      cases ic with
+      | err e => cases h
+      | panic w => cases h
+      | ok i =>
+        cases h
+        cases dtls with
+        | false => rw [hi rfl]; exact ⟨_, rfl, rfl, hb, rfl, fun _ => rfl⟩
+        | true =>
+          obtain ⟨b, hb'⟩ := hi' rfl
+          rw [hb']; exact ⟨_, rfl, rfl, hb, rfl, fun h => by cases h⟩
+
+theorem clientPort_old (k : Consts) (s : Stream) (lim : Nat) (t : Transport) (ver : Nat) (sess : Option Wire)
+    (sr : Bool) (hv : ver < k.randomizeMinVersion) : clientPort k s lim t ver sess sr = .ok 443 := by
+  unfold clientPort; rw [if_pos (Or.inl hv)]
+
+theorem clientPort_noRand (k : Consts) (s : Stream) (lim : Nat) (t : Transport) (ver : Nat) (sess : Option Wire) :
+    clientPort k s lim t ver sess false = .ok 443 := by
+  unfold clientPort; rw [if_pos (Or.inr rfl)]
+
+/-- the finished value of a `done`-ending derivation does not depend on the generator -/
+theorem run_done {α : Type} (R : Rng) (a : α) (g : R.G) : ((Prog.done a).run R g).1 = a := rfl
+
+/-- **Station = client, every library version.**  If the client of version `r.ver` derives a
+rendezvous (for versions 0/1: with a well-formed address, from a configuration in which every group
+lists subnets that fit their family — the contract of `net.ParseCIDR`), the station derives the same
+seed, phantom address and port from the registration, and the same identifier (DTLS has no client
+tag).  For every secret, configuration, transport, well-typed parameters, every crypto instantiation
+and every math/rand implementation in any state on either side. -/
+theorem station_eq_client (c : Crypto) (k : Consts) (cfg : Cfg) (gc : GenCfg) (r : Reg) (R : Rng) (g g' : R.G)
+    (rv : Rendezvous)
+    (hg : cfg.lookup r.gen = some gc)
+    (htab : ∀ id, lookupPrefix k.stationPrefixes id = lookupPrefix k.clientPrefixes id)
+    (hd : k.dtlsDefault = 443)
+    (hrm : hkdfMinVersion ≤ k.randomizeMinVersion)
+    (hpre : r.transport = .prefix → k.randomizeMinVersion ≤ r.ver)
+    (hty : WellTyped k r.transport r.params)
+    (hleg : r.ver < hkdfMinVersion →
+      rv.addr.length = famLen (!r.v6) ∧ (∀ grp ∈ gc.groups, grp.isNil = false) ∧
+      (∀ grp ∈ gc.groups, ∀ x, some x ∈ grp.nets → x.Fits))
+    (hc : ((clientDerive c k gc r).run R g).1 = .ok rv) :
+    ∃ rs, ((stationDerive c k cfg r).run R g').1 = .ok rs ∧ rs.seed = rv.seed ∧ rs.addr = rv.addr ∧
+      rs.port = rv.port ∧ (r.transport ≠ .dtls → rs.ident = rv.ident) := by
+  unfold clientDerive at hc
+  unfold stationDerive
+  rw [genSharedKeys_eq_spec]
+  cases hkeys : specClientKeys c r.ver r.secret with
+  | err e => rw [hkeys] at hc; cases hc
+  | panic w => rw [hkeys] at hc; cases hc
+  | ok keys =>
+    rw [hkeys] at hc
+    simp only [Prog.bind_eq, Prog.pure_eq, Prog.run_bind, run_done] at hc ⊢
+    have hident : (decide (r.transport = .dtls)) = false →
+        stationIdentifier c r.transport r.secret keys = clientIdentifier c r.transport r.secret keys := by
+      intro h; exact ident_agree c _ _ _ (by simpa using h)
+    have hident' : (decide (r.transport = .dtls)) = true → ∃ b, stationIdentifier c r.transport r.secret keys = .ok b := by
+      intro h
+      have : r.transport = .dtls := by simpa using h
+      rw [this]; exact ⟨_, rfl⟩
+    have wrap : ∀ {aC aS : Outcome Addr},
+        (∀ a, aC = .ok a → ∃ a', aS = .ok a' ∧ a'.bytes = a.bytes ∧
+          ∀ q, clientPort k (portStream c keys.seed) c.hk.lim r.transport r.ver r.params a.randPort = .ok q →
+            stationPort k (portStream c keys.seed) c.hk.lim r.transport r.ver r.params a'.randPort = .ok q) →
+        finish keys.seed aC (fun rp => clientPort k (portStream c keys.seed) c.hk.lim r.transport r.ver r.params rp)
+          (clientIdentifier c r.transport r.secret keys) = .ok rv →
+        ∃ rs, finish keys.seed aS (fun rp => stationPort k (portStream c keys.seed) c.hk.lim r.transport r.ver r.params rp)
+          (stationIdentifier c r.transport r.secret keys) = .ok rs ∧ rs.seed = rv.seed ∧ rs.addr = rv.addr ∧
+          rs.port = rv.port ∧ (r.transport ≠ .dtls → rs.ident = rv.ident) := by
+      intro aC aS ha hfin
+      obtain ⟨rs, h1, h2, h3, h4, h5⟩ := finish_agree (dtls := decide (r.transport = .dtls)) ha hident hident' hfin
+      exact ⟨rs, h1, h2, h3, h4, fun hne => h5 (by simpa using hne)⟩
+    by_cases hv : r.ver < hkdfMinVersion
+    · -- versions 0 and 1: the frozen clients
+      obtain ⟨hlen, hnil, hfit⟩ := hleg hv
+      rw [if_pos hv] at hc
+      simp only [Prog.bind_eq, Prog.run_bind] at hc
+      cases hcs : ((compatSelect (decide (r.ver < selectionMinGeneration)) gc keys.seed r.v6).run R g).1 with
+      | err e => rw [hcs] at hc; simp [Prog.pure_eq, Prog.run, finish] at hc
+      | panic w => rw [hcs] at hc; simp [Prog.pure_eq, Prog.run, finish] at hc
+      | ok b =>
+        rw [hcs] at hc
+        simp only [Prog.pure_eq, Prog.run] at hc
+        have hb : rv.addr = b := by
+          unfold finish at hc
+          simp only at hc
+          split at hc
+          · cases hc
+          · cases hc
+          · split at hc
+            · cases hc
+            · cases hc
+            · cases hc; rfl
+        obtain ⟨rp, hst⟩ := stationSelect_compat R g g' c.hk cfg gc keys.seed r.gen r.ver r.v6 b hg hv hnil hfit hcs
+          (by rw [← hb]; exact hlen)
+        rw [hst]
+        apply wrap _ hc
+        intro a ha
+        cases ha
+        refine ⟨⟨b, rp⟩, rfl, rfl, ?_⟩
+        intro q hq
+        have hver : r.ver < k.randomizeMinVersion := by omega
+        rw [clientPort_noRand] at hq
+        have := clientPort_old k (portStream c keys.seed) c.hk.lim r.transport r.ver r.params rp hver
+        rw [← hq] at this
+        exact port_agree k _ _ _ _ _ _ _ htab hpre hd hty this
+    · -- versions ≥ 2: SelectPhantom
+      rw [if_neg hv] at hc
+      simp only [Prog.pure_eq, Prog.run] at hc
+      rw [stationSelect_eq_client keys.seed r.v6 hg (by omega)]
+      simp only [Prog.run]
+      apply wrap _ hc
+      intro a ha
+      exact ⟨a, ha, rfl, fun q hq => port_agree k _ _ _ _ _ _ _ htab hpre hd hty hq⟩
 
 end CJ.Derive
